@@ -1117,18 +1117,29 @@ func unparseLiteral(l b6.AnyLiteral) (string, bool) {
 	case b6.IntExpression:
 		return fmt.Sprintf("%d", int(l)), true
 	case b6.FloatExpression:
-		return fmt.Sprintf("%.2f", float64(l)), true
+		return unparseFloat(float64(l)), true
 	case b6.TagExpression:
 		return UnparseTag(b6.Tag{Key: l.Key, Value: l.Value}), true
 	case b6.FeatureIDExpression:
 		return UnparseFeatureID(b6.FeatureID(l), true), true
 	case b6.PointExpression:
-		return fmt.Sprintf("%f, %f", l.Lat.Degrees(), l.Lng.Degrees()), true
+		return unparseFloat(l.Lat.Degrees()) + ", " + unparseFloat(l.Lng.Degrees()), true
 	case b6.QueryExpression:
 		return UnparseQuery(l.Query)
 	default:
 		return fmt.Sprintf("(broken-value \"%v\")", l), true
 	}
+}
+
+// unparseFloat prints the shortest decimal that parses back to the same
+// float64, always with a decimal point, since the lexer tells floats from
+// ints by it.
+func unparseFloat(f float64) string {
+	s := strconv.FormatFloat(f, 'f', -1, 64)
+	if !strings.Contains(s, ".") {
+		s += ".0"
+	}
+	return s
 }
 
 func unparseLambda(l b6.LambdaExpression) (string, bool) {
